@@ -238,6 +238,19 @@ func runHistory(r *mon.Run, work string, idx int, rng *mrand.Rand, keys []echgen
 			r.Inconclusive("first hello of a history was not accepted (%v)", out.Err)
 			return
 		}
+		// what the accessors return belongs to the caller: a router may sort or rewrite the list it got.
+		// That must not reach the state the retry rules compare against.
+		if idx%2 == 0 {
+			for i := range out.ALPN {
+				out.ALPN[i] = "scribbled-by-the-caller"
+			}
+			if a := flow.Conn.ALPNProtos(); len(a) > 0 {
+				a[0] = "zz"
+				a = append(a[:0], "h9")
+				_ = a
+			}
+			r.Count("histories_with_accessor_results_overwritten", 1)
+		}
 		m := &model{readInterp: true, writeInterp: true}
 		var trace []string
 		// every third history hands consecutive backend records to ONE Write call: what the Conn makes of the
